@@ -4,6 +4,7 @@ import (
 	"context"
 	"crypto/ed25519"
 	"encoding/base64"
+	"encoding/json"
 	"fmt"
 	"runtime/debug"
 	"sort"
@@ -295,9 +296,18 @@ func runC04(r *sim.Run) {
 		}
 	case "m.room.power_levels":
 		eb.StateKey = &empty
+		// room versions 1-5 do not insist on canonical numbers: levels may be
+		// spelt in forms that a float64 round trip would rewrite
+		lax := map[string]bool{"1": true, "2": true, "3": true, "4": true, "5": true}[c.verName] && t.Chance(400)
+		if lax {
+			r.Probe("c04_numbers_in_non_canonical_form")
+		}
 		for _, k := range []string{"ban", "events_default", "kick", "redact", "state_default", "users_default", "invite"} {
 			if t.Bool() {
 				content[k] = num(int64(t.Range(0, 100)))
+				if lax && t.Bool() {
+					content[k] = json.Number(sim.Pick(t, []string{"50.0", "1e2", "9007199254740993", "-0", "1.5e1", "100.00"}))
+				}
 			}
 		}
 		if t.Bool() {
